@@ -243,14 +243,16 @@ def numpy_compatible_ceiling(input_value: Any) -> Any:
     if isinstance(input_value, numpy.ndarray):
         return _float_arr_to_int_arr(numpy.ceil(input_value))
     else:
-        return sympy.ceiling(input_value)
+        result = sympy.ceiling(input_value)
+        return int(result) if result.is_Integer else result
 
 
 def _floor_to_int(input_value: Any) -> Any:
     if isinstance(input_value, numpy.ndarray):
         return _float_arr_to_int_arr(numpy.floor(input_value))
     else:
-        return sympy.floor(input_value)
+        result = sympy.floor(input_value)
+        return int(result) if result.is_Integer else result
 
 
 def to_numpy(sympy_array: sympy.NDimArray) -> numpy.ndarray:
